@@ -104,10 +104,15 @@ func wxAnyValue(fd protoreflect.FieldDescriptor, n *wSch, v *wVal) (protoreflect
 	f := fd.Message().Fields()
 	if n.Fl == "pb" {
 		m.Set(f.ByName("type_url"), protoreflect.ValueOfString("type.googleapis.com/"+wireAnyType))
-		m.Set(f.ByName("value"), protoreflect.ValueOfBytes(wireAnyProto()))
+		if v.A != "protoE" { // an inner message without set fields has no bytes: the value stays unset
+			m.Set(f.ByName("value"), protoreflect.ValueOfBytes(wireAnyProto()))
+		}
 		return protoreflect.ValueOfMessage(m), nil
 	}
 	m.Set(f.ByName("type_name"), protoreflect.ValueOfString(wireAnyType))
+	if v.A == "jsonE" {
+		m.Set(f.ByName("j5_json"), protoreflect.ValueOfBytes([]byte("{}")))
+	}
 	if v.A == "json" || v.A == "both" {
 		m.Set(f.ByName("j5_json"), protoreflect.ValueOfBytes([]byte(wireAnyJSON)))
 	}
@@ -312,6 +317,9 @@ func wxProjNode(n *wSch, pv protoreflect.Value) wVal {
 			if out.Tn == "type.googleapis.com/"+wireAnyType && string(m.Get(f.ByName("value")).Bytes()) == string(wireAnyProto()) {
 				out.A = "proto"
 			}
+			if out.Tn == "type.googleapis.com/"+wireAnyType && len(m.Get(f.ByName("value")).Bytes()) == 0 {
+				out.A = "protoE"
+			}
 			return out
 		}
 		out.Tn = m.Get(f.ByName("type_name")).String()
@@ -319,6 +327,10 @@ func wxProjNode(n *wSch, pv protoreflect.Value) wVal {
 		jOK := string(m.Get(f.ByName("j5_json")).Bytes()) == wireAnyJSON
 		pOK := string(m.Get(f.ByName("proto")).Bytes()) == string(wireAnyProto())
 		switch {
+		case hasJ && !hasP && string(m.Get(f.ByName("j5_json")).Bytes()) == "{}":
+			out.A = "jsonE"
+		case !hasJ && !hasP:
+			out.A = "protoE"
 		case hasJ && !hasP && jOK:
 			out.A = "json"
 		case hasP && !hasJ && pOK:
@@ -390,7 +402,13 @@ func wxProjMsg(n *wSch, msg protoreflect.Message) wVal {
 	return out
 }
 
+// wxValEqual compares an original message with the message decoded from its encoding. The documented normalisation of an
+// Any applies: a j5 Any given as proto bytes only comes back carrying the JSON text of the same payload (orig "proto" ->
+// back "both" WithProtoToAny; an inner message without set fields has no bytes either way: orig "protoE" -> back "jsonE").
 func wxValEqual(a, b *wVal) bool {
+	if a.T == "any" && b.T == "any" && a.Tn == b.Tn && a.A != b.A {
+		return (a.A == "protoE" && b.A == "jsonE") || (a.A == "proto" && b.A == "both")
+	}
 	if a.T != b.T || a.A != b.A || a.Tn != b.Tn || len(a.M) != len(b.M) || len(a.S) != len(b.S) {
 		return false
 	}
